@@ -160,6 +160,7 @@ type harness struct {
 	cut      int64
 	ex       *executor
 	sampled  map[string]int // mutation class -> evidence samples taken in this process
+	bigRoom  bool           // the next executor gets 6 GiB of address-space room instead of 512 MiB
 }
 
 const nStats = 8
@@ -522,6 +523,9 @@ func (h *harness) startExecutor(live bool) error {
 		mode = "live"
 	}
 	cmd.Env = append(os.Environ(), "C04_EXECUTOR="+mode, "VERIF_OUT=", "VERIF_PROGRESS=", "VERIF_ONLY=", "VERIF_SKIP_THROUGH=")
+	if h.bigRoom {
+		cmd.Env = append(cmd.Env, "C04_EXECUTOR_ROOM_MIB=6144")
+	}
 	cmd.Stderr = lf
 	cmd.ExtraFiles = []*os.File{reqR, respW}
 	err = cmd.Start()
@@ -557,6 +561,17 @@ func (h *harness) remote(e *entry, key string, in []byte) outcome {
 	if o.Fatal != "" && !o.FatalJcm && (strings.Contains(o.Log, "pthread_create failed") || strings.Contains(o.Log, "failed to create new OS thread")) {
 		h.r.Inc("executor_deaths_by_thread_creation_retried")
 		o = h.remote1(e, key, in)
+	}
+	if o.Fatal != "" && !o.FatalJcm && strings.Contains(o.Fatal, "out of memory") {
+		// refused inside the runtime (garbage collector, arena metadata) with no goroutine of the code under test running:
+		// the tight address-space limit was reached by what this and earlier cases left behind. The case runs once more,
+		// alone in a fresh executor with room to finish, where the allocation meter and its attribution decide it.
+		h.r.Inc("executor_deaths_by_memory_pressure_without_witness_retried")
+		h.stopExecutor()
+		h.bigRoom = true
+		o = h.remote1(e, key, in)
+		h.stopExecutor()
+		h.bigRoom = false
 	}
 	return o
 }
@@ -611,7 +626,11 @@ func (h *harness) remote1(e *entry, key string, in []byte) outcome {
 func executorMain(t *testing.T) {
 	req, resp := os.NewFile(3, "req"), os.NewFile(4, "resp")
 	runtime.GOMAXPROCS(2)
-	if err := hostile.LimitAS(hostile.VMSize() + executorASRoom); err != nil {
+	room := uint64(executorASRoom)
+	if v, err := strconv.Atoi(os.Getenv("C04_EXECUTOR_ROOM_MIB")); err == nil && v > 0 {
+		room = uint64(v) << 20
+	}
+	if err := hostile.LimitAS(hostile.VMSize() + room); err != nil {
 		fmt.Fprintln(os.Stderr, "executor: cannot set RLIMIT_AS:", err)
 		os.Exit(3)
 	}
